@@ -3,6 +3,7 @@ import time
 import os, sys, json, time, random, re, collections, itertools
 import vlib, streams
 import pstreams3 as P3
+import pstreams4 as P4
 from vlib import log, enc, dec, ORACLE
 
 TRUSTED_BASE_COMMON = [
@@ -155,7 +156,7 @@ def lex_property_check(src, res):
 
 
 def stream_lex(ctx):
-    cases = streams.lex_cases(ctx.rng, ctx.tier) + [(s_, 'corpus2') for s_ in P3.LEX_CORPUS]
+    cases = streams.lex_cases(ctx.rng, ctx.tier) + [(s_, 'corpus2') for s_ in P3.LEX_CORPUS + P4.LEX_CORPUS2]
     fname = 't.pakhi'
     mk = lambda s: 'lex %s %s' % (enc(fname), enc(s))
     lines = [mk(s) for s, _ in cases]
@@ -195,7 +196,7 @@ def stream_lex(ctx):
 def _registry():
     S = simple_stream
     return {
-    'C01': {'proofs': 'C01', 'streams': [stream_expr, S('expr-temporaries', lambda rng, tier: P3.temporaries_programs(rng, 4 if tier != 'thorough' else 30), flags='-', shrink=False)],
+    'C01': {'proofs': 'C01', 'streams': [stream_expr, S('expr-programs', lambda rng, tier: P3.temporaries_programs(rng, 4 if tier != 'thorough' else 30) + P4.higher_order_programs(rng, 60 if tier != 'thorough' else 400) + P4.concat_nested_identity_programs(rng, 60 if tier != 'thorough' else 400) + P4.assignment_order_programs(rng, 40 if tier != 'thorough' else 300), flags='-', shrink=False)],
             'rule': 'expr stream: typed random operator trees (all 13 binary and 2 unary operators, calls, lists, records, nil) rendered with minimal, random-extra and whole-expression parentheses; 20% with ill-typed operands; non-trivial = every distinct program',
             'assumptions': ['operand evaluation order is modelled but not part of the statement (calls are to pure functions)', 'hardware floating point is tied to SpecFloat by the f64 stream only']},
     'C02': {'proofs': 'C02', 'streams': [stream_chains],
@@ -775,6 +776,11 @@ def stream_layout(ctx):
             (['# আগে #', 'মডিউল ক = "lib/m.pakhi"; # একই লাইনে #', 'দেখাও ক/মান;', 'দেখাও ক/দেখ();', '# শেষে #'], modbody + ['# মডিউলের শেষে #']),
             (['মডিউল ক = "lib/m.pakhi";', 'দেখাও ক/মান;', '# মাঝে \\# এখনও #', 'দেখাও ক/দেখ();'], [modbody[0], '# মাঝে #'] + modbody[1:])]):
         cases.append({'src': '\n'.join(main) + '\n', 'files': [('lib/m.pakhi', '\n'.join(mod) + '\n')], 'kind': 'layout-import-comments', 'group': gi0})
+    gi1 = gi0 + 1
+    for c in P4.keyword_comment_programs():
+        gi1 += 1; cases.append(dict(c, group=gi1))
+    for src in P4.comment_anywhere_sources(ctx.rng, progs[:40 if ctx.tier != 'thorough' else 300]):
+        gi1 += 1; cases.append({'src': src, 'kind': 'layout-comment-anywhere', 'group': gi1})
     impl, model = diff_programs(ctx, 'layout', cases, flags='-', nontrivial=lambda s: True)
     groups = collections.defaultdict(list)
     for c, a in zip(cases, impl): groups[c['group']].append((c, ends_of(a, with_line=False)))
@@ -855,7 +861,9 @@ def stream_parse(ctx):
                         ('মডিউল ক = "mod.pakhi";\n', [('mod.pakhi', '')]),
                         ('মডিউল ক = "d/" + "mod.pakhi";\n', [('d/mod.pakhi', 'মডিউল ভ = "inner.pakhi";\n' + modsrc), ('d/inner.pakhi', '# ভিতরের #\nনাম ভিতর = ১;\n')]),
                         ('মডিউল ক = "নাই.pakhi";\n', []), ('মডিউল ক = "mod.txt";\n', [('mod.txt', modsrc)]), ('মডিউল ক = "mod";\n', [('mod', modsrc)]), ('মডিউল ক = "d/mod";\n', []),
-                        ('মডিউল ক = "";\n', []), ('মডিউল ক = "..";\n', []), ('মডিউল ক = ".pakhi";\n', []), ('মডিউল _টাইপ = "mod.pakhi";\nদেখাও _টাইপ/মান;\n', [('mod.pakhi', modsrc)])]:
+                        ('মডিউল ক = "";\n', []), ('মডিউল ক = "..";\n', []), ('মডিউল ক = ".pakhi";\n', []), ('মডিউল _টাইপ = "mod.pakhi";\nদেখাও _টাইপ/মান;\n', [('mod.pakhi', modsrc)])] + \
+                       [(f_ + '\n', [('mod.pakhi', modsrc)]) for f_ in P4.IMPORT_FORMS2] + [(c_['src'], c_.get('files', [])) for c_ in P3.import_graph_oddities() + P4.reimport_programs() + P3.module_alias_programs()] + \
+                       [(c_['src'], []) for c_ in P4.keyword_comment_programs()]:
         srcs.append((main, 'import')); lines.append(parse_line(main, files))
     impl, model = oracle_and_model(ctx, lines, 'parse')
     origins = collections.Counter(o for _, o in srcs)
@@ -914,6 +922,7 @@ def stream_cli(ctx):
              ('দেখাও "এক";\n_দেখাও "দুই";\n_দেখাও [১, "ক"];\nদেখাও অজানা;\n', 1, 'এক\nদুই[১, ক]', 'RuntimeError'), ('_দেখাও "শেষে নতুন লাইন নেই";\n', 0, 'শেষে নতুন লাইন নেই', None),
              ('নাম শূ;\n_দেখাও "ক";\n_দেখাও "খ";\nদেখাও [১, শূ];\nদেখাও "পরে";\n', 1, 'কখ', 'RuntimeError'), ('_দেখাও "ক";\nদেখাও "খ";\n_দেখাও "গ";\n_এরর("থাম");\n', 1, 'কখ\nগ', 'RuntimeError: থাম'),
              ('নাম র = [@{"নাম" -> ১,}];\nদেখাও র;\n_দেখাও র;\n', 0, '[@{"নাম":১,}]\n[@{"নাম":১,}]', None)]
+    progs += [(src_, 0, out_, None) for src_, out_ in P4.cli_programs()]
     n = 0
     for src, status, stdout, errhead in progs:
         p = os.path.join(d, 'p.pakhi')
